@@ -386,7 +386,7 @@ def asn1c_enum_values(root, adds):
 
 def looks_through_cycle(M):
     """True if some untagged CHOICE / reference chain reaches itself without crossing a tag or a
-    type with a universal tag (the generator never produces this; asn1c dies on it)"""
+    type with a universal tag (the generator never produces this; asn1c rejects it: former finding F63)"""
     defs = {}
     for n, t in M[1]:
         defs.setdefault(n, t)
@@ -828,10 +828,6 @@ WITNESSES = [
     ('enum-numbering-accepts-duplicate',
      'ENUMERATED {a(1), b, ..., c(0)}: X.680 20.3 gives b=0, so c(0) repeats a value; asn1f_fix_enum numbers b=2 and accepts',
      ('E', [('T0', ('enum', None, [('a', 1), ('b', None)], True, [('c', 0)]))]), 'reject'),
-    ('recursive-untagged-choice-crash',
-     'T0 ::= CHOICE { a T0, b INTEGER }: alternative a has every tag of T0, including that of b; '
-     '_asn1f_compare_tags recurses without bound and asn1c dies (stack overflow) instead of reporting',
-     ('E', [('T0', ('constr', None, 'cho', [('a', ('ref', None, 'T0'), 'm'), ('b', P('int'), 'm')], False, []))]), 'reject'),
 ]
 
 WITNESSES.append(
@@ -842,6 +838,24 @@ WITNESSES.append(
      ('E', [('T0', P('int')),
             ('T1', ('constr', None, 'cho', [('x', ('ref', None, 'T0'), 'm'), ('y', ('ref', None, 'T2'), 'm')], False, [])),
             ('T2', ('constr', None, 'cho', [('p', P('int'), 'm'), ('q', P('null'), 'm')], False, []))]), 'reject'))
+
+# former witness of the repaired finding F63 (a type defined through itself without an intervening tag: asn1c died by stack
+# overflow in _asn1f_compare_tags, now a FATAL diagnostic) and its neighbourhood: ordinary cases, nothing is suppressed.
+# The model runs out of fuel on them (`loop`), which its verdict reports as reject: K demands that asn1c rejects too.
+def _cho(*alts): return ('constr', None, 'cho', [(n, t, 'm') for n, t in alts], False, [])
+FORMER_WITNESSES = [
+    ('recursive-untagged-choice-crash', 'T0 ::= CHOICE { a T0, b INTEGER }: alternative a has every tag of T0, including that of b',
+     ('E', [('T0', _cho(('a', ('ref', None, 'T0')), ('b', P('int'))))]), 'reject'),
+    ('recursive-untagged-choice-implicit', 'the same in an IMPLICIT TAGS module',
+     ('I', [('T0', _cho(('a', ('ref', None, 'T0')), ('b', P('int'))))]), 'reject'),
+    ('recursive-untagged-choice-mutual', 'T0 ::= CHOICE { a T1, b INTEGER }, T1 ::= CHOICE { c T0, d NULL }',
+     ('E', [('T0', _cho(('a', ('ref', None, 'T1')), ('b', P('int')))), ('T1', _cho(('c', ('ref', None, 'T0')), ('d', P('null'))))]), 'reject'),
+    ('recursive-untagged-choice-second', 'T0 ::= CHOICE { b INTEGER, a T0 }',
+     ('E', [('T0', _cho(('b', P('int')), ('a', ('ref', None, 'T0'))))]), 'reject'),
+    ('recursive-untagged-choice-as-member', 'T1 ::= SET { x T0, y BOOLEAN } with the self-containing T0',
+     ('E', [('T0', _cho(('a', ('ref', None, 'T0')), ('b', P('int')))),
+            ('T1', ('constr', None, 'set', [('x', ('ref', None, 'T0'), 'm'), ('y', P('bool'), 'm')], False, []))]), 'reject'),
+]
 
 # deviations from the standard that do not contradict the property text (documented, K only)
 QUIRKS = [
@@ -890,6 +904,8 @@ def run(ctx, only_modules=None):
         cases.append({'kind': 'witness:' + wid, 'desc': desc, 'M': M, 'want': want})
     for qid, M in QUIRKS:
         cases.append({'kind': 'quirk:' + qid, 'desc': '', 'M': M})
+    for wid, desc, M, want in FORMER_WITNESSES:
+        cases.append({'kind': 'former:' + wid, 'desc': desc, 'M': M, 'want': want})
 
     for c in cases:
         c['sexp'] = module_sexp(c['M'])
@@ -942,7 +958,12 @@ def run(ctx, only_modules=None):
         if r['crash']:
             kstat['c_crashes'] += 1
         if mv == 'loop':
-            kstat['model_loop'] += 1       # outside the model's domain (look-through cycle)
+            # look-through cycle: the model runs out of fuel and reports reject; asn1c's depth guard in
+            # _asn1f_compare_tags (or an earlier check) must reject as well, by exit and not by signal
+            kstat['model_loop'] += 1
+            if model_ok and (r['crash'] or r['verdict'] != 'reject'):
+                kstat['disagreements'] += 1
+                kdis.append((c, 'look-through cycle: asn1c=%s%s model=loop (reject)' % (r['verdict'], ' (died)' if r['crash'] else '')))
             continue
         if not model_ok:
             continue
@@ -1009,8 +1030,6 @@ def run(ctx, only_modules=None):
         f = None
         if is_enum_numbering_case(c['M']):
             f = ctx.match_finding(lambda f: any(i.startswith('enum-numbering') for i in finding_ids(f)))
-        elif c['cyclic']:
-            f = ctx.match_finding(lambda f: 'recursive-untagged-choice-crash' in finding_ids(f))
         elif 'accepted' in why and is_markcut_case(c['M']):
             f = ctx.match_finding(lambda f: 'typeref-then-choice-ref-missed' in finding_ids(f))
         if f:
